@@ -1,0 +1,90 @@
+//go:build verif
+
+package ed25519
+
+// Verification hooks (build tag "verif" only): thin wrappers that re-export
+// operations of the internal edwards25519 package so that an external test
+// harness can compare them with an independent model. They add no behaviour.
+
+import "github.com/cloudflare/pat-go/ed25519/internal/edwards25519"
+
+// VerifScalarReduceWide reduces a 64-byte little-endian value modulo l.
+func VerifScalarReduceWide(x []byte) []byte {
+	return edwards25519.NewScalar().SetUniformBytes(x).Bytes()
+}
+
+// VerifScalarSetBytes reduces a 32-byte little-endian value modulo l (the fork's SetBytes).
+func VerifScalarSetBytes(x []byte) []byte {
+	return edwards25519.NewScalar().SetBytes(x).Bytes()
+}
+
+// VerifScalarSetBytesWithClamping clamps per RFC 8032 and reduces modulo l.
+func VerifScalarSetBytesWithClamping(x []byte) []byte {
+	return edwards25519.NewScalar().SetBytesWithClamping(x).Bytes()
+}
+
+// VerifScalarSetCanonical reports whether x is a canonical scalar encoding, and its value.
+func VerifScalarSetCanonical(x []byte) ([]byte, bool) {
+	s, err := edwards25519.NewScalar().SetCanonicalBytes(x)
+	if err != nil {
+		return nil, false
+	}
+	return s.Bytes(), true
+}
+
+func verifScalar(x []byte) *edwards25519.Scalar { return edwards25519.NewScalar().SetBytes(x) }
+
+// VerifScalarMulAdd returns a*b+c mod l (inputs are reduced first).
+func VerifScalarMulAdd(a, b, c []byte) []byte {
+	return edwards25519.NewScalar().MultiplyAdd(verifScalar(a), verifScalar(b), verifScalar(c)).Bytes()
+}
+
+// VerifScalarOps returns a+b, a-b, -a, a*b mod l.
+func VerifScalarOps(a, b []byte) (sum, diff, neg, prod []byte) {
+	x, y := verifScalar(a), verifScalar(b)
+	return edwards25519.NewScalar().Add(x, y).Bytes(), edwards25519.NewScalar().Subtract(x, y).Bytes(),
+		edwards25519.NewScalar().Negate(x).Bytes(), edwards25519.NewScalar().Multiply(x, y).Bytes()
+}
+
+// VerifScalarInvert returns a^-1 mod l (the fork's ModInverse).
+func VerifScalarInvert(a []byte) []byte {
+	return verifScalar(a).ModInverse().Bytes()
+}
+
+// VerifPointDecode decodes a point and returns its canonical re-encoding.
+func VerifPointDecode(x []byte) ([]byte, bool) {
+	p, err := (&edwards25519.Point{}).SetBytes(x)
+	if err != nil {
+		return nil, false
+	}
+	return p.Bytes(), true
+}
+
+func verifPoint(x []byte) *edwards25519.Point {
+	p, err := (&edwards25519.Point{}).SetBytes(x)
+	if err != nil {
+		panic("verif hook: " + err.Error())
+	}
+	return p
+}
+
+// VerifPointOps returns p+q, p-q, -p for decodable p, q.
+func VerifPointOps(p, q []byte) (sum, diff, neg []byte) {
+	P, Q := verifPoint(p), verifPoint(q)
+	return (&edwards25519.Point{}).Add(P, Q).Bytes(), (&edwards25519.Point{}).Subtract(P, Q).Bytes(), (&edwards25519.Point{}).Negate(P).Bytes()
+}
+
+// VerifPointScalarMult returns [s]p.
+func VerifPointScalarMult(s, p []byte) []byte {
+	return (&edwards25519.Point{}).ScalarMult(verifScalar(s), verifPoint(p)).Bytes()
+}
+
+// VerifPointScalarBaseMult returns [s]B.
+func VerifPointScalarBaseMult(s []byte) []byte {
+	return (&edwards25519.Point{}).ScalarBaseMult(verifScalar(s)).Bytes()
+}
+
+// VerifPointDoubleScalarBaseMult returns [a]A + [b]B.
+func VerifPointDoubleScalarBaseMult(a, A, b []byte) []byte {
+	return (&edwards25519.Point{}).VarTimeDoubleScalarBaseMult(verifScalar(a), verifPoint(A), verifScalar(b)).Bytes()
+}
